@@ -158,7 +158,7 @@ def reads_written(act, S, args, D, objs):
     return len(written) > 0 and len({g for g, _ in nums} | {g for g, _ in adds} | {g for g, _ in dels}) > 1
 
 
-def state_eq(A, B, tol=1e-9):
+def state_eq(A, B, tol=0.0):
     if A[0] != B[0]:
         return False
     if set(A[1]) != set(B[1]):
@@ -178,7 +178,7 @@ def state_diff(A, B):
             out.append(f"fluent {k} missing")
         elif k not in B[1]:
             out.append(f"fluent {k} is extra (value {A[1][k]})")
-        elif A[1][k] != B[1][k] and not abs(A[1][k] - B[1][k]) <= 1e-9:
+        elif A[1][k] != B[1][k]:
             out.append(f"fluent {k} = {A[1][k]}, reference says {B[1][k]}")
     return "; ".join(out[:6])
 
